@@ -12,6 +12,7 @@
    the property lists (no valid pickle of a different object planted in a row). *)
 From Coq Require Import List Bool ZArith.
 Import ListNotations.
+Open Scope Z_scope.
 From PV Require Import Model.C01_cache Proofs.C01_cache.
 
 (* Full statement, for a source whose unpickle handler catches every exception class and which handles
@@ -58,9 +59,9 @@ Print Assumptions C01_transparent_refuted_uncaught.
 (* non-vacuity: a concrete history with an entry fault, a file fault, a layout fault, a version change and
    an expiry that satisfies every hypothesis above (including the reload discipline), from the empty folder *)
 Example C01_example :
-  let h := [Parse 0 30 false; Parse 1 30 true; CorruptEntry 0 (Raises EOFError); Parse 0 30 false;
-            CorruptFile; Reload; Parse 0 1 false; SetVersion (Clean 1); Parse 0 30 false;
-            CorruptLayout LModelsWrong; Advance (31 * DAY); Reload; Parse 1 30 false; Parse 0 0 true] in
+  let h := [Parse 0 (30 * DAY) false; Parse 1 (30 * DAY) true; CorruptEntry 0 (Raises EOFError); Parse 0 (30 * DAY) false;
+            CorruptFile; Reload; Parse 0 DAY false; SetVersion (Clean 1); Parse 0 (30 * DAY) false;
+            CorruptLayout LModelsWrong; Advance (31 * DAY); Reload; Parse 1 (10 ^ 30) false; Parse 0 (-5) true] in
   legal h = true /\ Inv (fun t => Nat.eqb t 0) init_state /\ s_init init_state = false /\
   disciplined false false (is_clean (s_ver init_state)) h = true /\
   run (fun t => Nat.eqb t 0) (fun _ => true) false init_state h =
